@@ -1,10 +1,11 @@
 #!/bin/bash
 # usage: tools/run_seed.sh <seed-dir-name> [prop]   -- run the property's quick check against a scratch copy with the seeded patch applied
+V=$(dirname "$(dirname "$(realpath "$0")")")
 seed=$1; prop=${2:-${seed%%_*}}
 scr=$(mktemp -d /tmp/seedscr.XXXXXX)
 cp -r /repo/esrally $scr/ && cp -r /repo/docs $scr/ 2>/dev/null
-pf=/verif/seeded/$seed/patch.diff; [ -f /verif/seeded/$seed/patch_on_fixed.diff ] && pf=/verif/seeded/$seed/patch_on_fixed.diff; (cd $scr && patch -p1 -s < $pf) || { echo "patch failed"; rm -rf $scr; exit 9; }
-cd /verif && ./check $prop --repo $scr 2>&1 | grep -v "^  C[0-9]*/" | tail -${TAILN:-6}
+pf=$V/seeded/$seed/patch.diff; [ -f $V/seeded/$seed/patch_on_fixed.diff ] && pf=$V/seeded/$seed/patch_on_fixed.diff; (cd $scr && patch -p1 -s < $pf) || { echo "patch failed"; rm -rf $scr; exit 9; }
+cd $V && ./check $prop --repo $scr 2>&1 | grep -v "^  C[0-9]*/" | tail -${TAILN:-6}
 rc=${PIPESTATUS[0]}
 rm -rf $scr
 exit $rc
